@@ -34,7 +34,7 @@ def add_twodel_queries(ds, rng, k):
     qid = max(q[0] for q in ds['queries']) + 11 if ds['queries'] else 1
     for _ in range(k):
         rid, rl, rp = rng.choice(ds['refs'])
-        n1, n2, n3 = rng.randint(9, 11), rng.randint(20, 24), rng.randint(9, 11)
+        n1, n2, n3 = rng.randint(8, 12), rng.randint(20, 24), rng.randint(8, 12)
         s1, s2 = rng.randint(3, 6), rng.randint(3, 6)
         a = rng.randint(2, len(rp) - (n1 + n2 + n3 + s1 + s2) - 3)
         w1 = rp[a:a + n1]; b = a + n1 + s1; w2 = rp[b:b + n2]; c = b + n2 + s2; w3 = rp[c:c + n3]
@@ -90,9 +90,11 @@ def add_palindromes(ds, rng):
     return ds
 
 
-def make_dataset(ds_seed, nq, nlab=200, twodel=0, dup=None):
+def make_dataset(ds_seed, nq, nlab=200, twodel=None, dup=None):
     rng = random.Random(ds_seed)
     ds = e2e.gen_mixed(rng, nref=2, nlab=nlab, nq=nq)
+    if twodel is None:
+        twodel = 2          # every data set has molecules whose first pass leaves a head AND a tail fragment (of different label counts)
     if twodel:
         add_twodel_queries(ds, random.Random(ds_seed + 1), twodel)
     if dup if dup is not None else ds_seed % 2 == 0:
